@@ -296,6 +296,8 @@ func Seeded(w io.Writer, seed int64, kind string, n int) error {
 					p.Lines = append(p.Lines, "1 EVEN "+mk("E", 'e', k), "2 TYPE "+mk("F", 'f', k))
 				case 1:
 					p.Lines = append(p.Lines, "1 BAPM", "2 PLAC "+mk("J", 'j', k), "2 NOTE "+mk("L", 'l', k))
+				case 2: // a further name with a type in free text (the "Additional Names" card prints the type)
+					p.Lines = append(p.Lines, "1 NAME "+mk("N", 'n', k)+" /"+mk("S", 'o', k)+"/", "2 TYPE of the "+mk("T", 't', k))
 				}
 				if p.Kind != "deat" && p.Kind != "old" && rng.Intn(2) == 0 {
 					p.Kind = "deat"
